@@ -8,9 +8,9 @@ from cpverif.props import c09
 LEVEL = "exploration"
 RULE = (
     "generated CIDs (1-5 fields of all eight types incl. Decimal and DateTime with rules from the C02 grammars, IsUnique and "
-    "DistinctCount checks, Header and Allowed characters - the properties common to all formats) are stored three ways - CSV "
+    "DistinctCount checks whose descriptions may have blanks around them, examples (free text also with blanks around it), Header and Allowed characters - the properties common to all formats) are stored three ways - CSV "
     "text, ODS (independent encoder), XLSX (xlsxwriter) - for each of the three Format values delimited / ods / excel, and "
-    "rectangular tables of accepted and rejected text cells are stored in the matching three data containers: 9 "
+    "rectangular tables of accepted and rejected text cells (also with a completely empty row before the last row) are stored in the matching three data containers: 9 "
     "combinations per logical case. Oracle (relational): for a fixed Format the three stored CIDs load into the same "
     "interface (settings, fields in order with class / flag / length / rule / example, checks); across all 9 combinations "
     "every data row gets the same verdict and accepted rows the same values; each also agrees with M-rows. A case is the "
@@ -49,13 +49,21 @@ def gen_case(rng):
         if not accept:
             decl = {"name": "f%d" % i, "type": "Text", "empty": False, "length": "", "rule": ""}
             accept, reject = ["a", "bb"], []
+        if rng.random() < 0.5:
+            # the example cell: any accepted value; free text also with blanks around it (the cell is part of the CID's
+            # contents like any other)
+            example = rng.choice(accept)
+            if decl["type"] == "Text" and decl["length"] == "" and example.strip() and rng.random() < 0.5:
+                example = rng.choice([" ", "  ", ""]) + example + rng.choice(["", " "])
+            decl = dict(decl, example=example)
         fields.append(decl)
         pools.append((accept, reject))
     checks = []
+    blanks = lambda text: rng.choice(["", "", " ", "  "]) + text + rng.choice(["", "", " "])
     if rng.random() < 0.5:
-        checks.append({"desc": "uniq", "type": "IsUnique", "fields": [rng.choice(fields)["name"]]})
+        checks.append({"desc": blanks("uniq"), "type": "IsUnique", "fields": [rng.choice(fields)["name"]]})
     if rng.random() < 0.3:
-        checks.append({"desc": "dist", "type": "DistinctCount", "field": rng.choice(fields)["name"], "op": rng.choice(["<", "<=", ">=", "!="]), "n": rng.randint(0, 4)})
+        checks.append({"desc": blanks("dist"), "type": "DistinctCount", "field": rng.choice(fields)["name"], "op": rng.choice(["<", "<=", ">=", "!="]), "n": rng.randint(0, 4)})
     header = rng.choice([0, 0, 1])
     table = []
     for r in range(header):
@@ -68,6 +76,10 @@ def gen_case(rng):
         if table[header:] and checks and rng.random() < 0.25:
             row = list(rng.choice(table[header:]))
         table.append(row)
+    if len(table) - header >= 2 and rng.random() < 0.2:
+        # a row whose cells are all empty, somewhere before the last row: a row like any other (at the end it could
+        # not be told from filler in the spreadsheet containers)
+        table.insert(rng.randint(header, len(table) - 1), [""] * nfields)
     return fields, checks, header, table
 
 
@@ -119,6 +131,9 @@ def check_case(ctx, fields, checks, header, table):
         if fmt == "delimited":
             model.encoding = "utf-8"
         rows = model.cid_rows()
+        for row in rows:
+            if row[0] == "F":
+                row[2] = next(f.get("example", "") for f in fields if f["name"] == row[1])
         run = RM.expected_run(model, [list(r) for r in table])
         if run is None:
             ctx.unjudged("table containing a cell the field model does not judge")
